@@ -94,6 +94,7 @@ impl Property for C13 {
         v.push(("preprocess-batch".into(), tier.pick(10, 100)));
         v.push(("t=n".into(), m));
         v.push(("large-state".into(), 6));
+        v.push(("fieldwise".into(), m));
         v
     }
     fn check(&self, suite: SuiteId, case: &Case, ctx: &mut Ctx) -> CheckResult {
@@ -261,6 +262,11 @@ fn check<C: Suite>(case: &Case, ctx: &mut Ctx) -> CheckResult {
     // would cost minutes; equality of the restored state stands in for "every subsequent step gives the same outputs").
     if case.seed % 12 == 5 {
         large_state::<C>(case, ctx)?;
+    }
+    // ---- field-by-field persistence ("custom serialization": every field stored on its own, the value rebuilt with
+    // new()), one case in three
+    if case.seed % 3 == 1 {
+        fieldwise::<C>(case, ctx)?;
     }
     let nb = [4usize, 4, 3, 3, 5][proto];
     let mut base: Option<Outputs> = None;
@@ -593,5 +599,59 @@ fn large_state<C: Suite>(case: &Case, ctx: &mut Ctx) -> CheckResult {
     let (shares, _) = frost::keys::generate_with_dealer::<C, _>(t + 1, t, frost::keys::IdentifierList::Default, &mut Tape::random(case.seed ^ 0x1a48)).map_err(|e| inconclusive(format!("dealer t={t}: {e:?}")))?;
     let sh = shares.values().next().unwrap();
     same(ctx, "a dealer's secret share", sh, t)?;
+    Ok(())
+}
+
+
+fn fieldwise<C: Suite>(case: &Case, ctx: &mut Ctx) -> CheckResult {
+    use frost_core::keys::{SigningShare, VerifiableSecretSharingCommitment, VerifyingShare};
+    let shape = Shape { n: 3, t: 2 + (case.seed >> 5) as u16 % 2 };
+    let idv = {
+        let mut v = make_ids::<C>(case.ids, 3);
+        v.sort();
+        v
+    };
+    let run = dkg_rounds::<C>(shape, &idv, case.seed ^ 0xf1e1d, "C13")?;
+    let me = idv[(case.who as usize) % 3];
+    ctx.eval("fieldwise", true);
+    ctx.label("fieldwise");
+    let bad = |what: &str, e: String| Failure { key: "C13/saved-state-does-not-decode".into(), msg: format!("field-by-field storage: {what} does not come back: {e}") };
+    let re_id = |i: &Id<C>| Id::<C>::deserialize(&i.serialize()).map_err(|e| bad("an identifier", format!("{e:?}")));
+    let re_comm = |c: &VerifiableSecretSharingCommitment<C>| -> Result<VerifiableSecretSharingCommitment<C>, Failure> {
+        let w = c.serialize_whole().map_err(|e| Failure { key: "C13/state-does-not-encode".into(), msg: format!("commitment: {e:?}") })?;
+        VerifiableSecretSharingCommitment::<C>::deserialize_whole(&w).map_err(|e| bad("the commitment written with serialize_whole()", format!("{e:?}")))
+    };
+    let re_sc = |x: &Sc<C>| sc_from_bytes::<C>(&sc_bytes::<C>(x)).ok_or_else(|| bad("a scalar", "canonical bytes rejected".into()));
+    // round-one secret package
+    {
+        let s = &run.r1_secret[&me];
+        let coeffs: Result<Vec<Sc<C>>, Failure> = s.coefficients().iter().map(|c| re_sc(c)).collect();
+        let r = round1::SecretPackage::<C>::new(re_id(s.identifier())?, coeffs?, re_comm(s.commitment())?, *s.min_signers(), *s.max_signers());
+        ensure!(ctx, r == *s && r.serialize().ok() == s.serialize().ok(), "C13/restored-state-differs", "round-one secret package rebuilt field by field differs from the original");
+    }
+    // round-two secret package
+    {
+        let s = &run.r2_secret[&me];
+        let r = round2::SecretPackage::<C>::new(re_id(s.identifier())?, re_comm(s.commitment())?, re_sc(&s.secret_share())?, *s.min_signers(), *s.max_signers());
+        ensure!(ctx, r == *s && r.serialize().ok() == s.serialize().ok(), "C13/restored-state-differs", "round-two secret package rebuilt field by field differs from the original");
+        // ... and part3 continues from it to the same outputs
+        let (r1, r2) = dkg_inputs_for(&run, &me);
+        let a = dkg::part3(s, &r1, &r2).map(|(k, p)| (k.serialize().ok(), p.serialize().ok()));
+        let b = dkg::part3(&r, &r1, &r2).map(|(k, p)| (k.serialize().ok(), p.serialize().ok()));
+        ensure!(ctx, a.is_ok() && a.as_ref().ok() == b.as_ref().ok(), "C13/resumed-run-differs", "part3 from the round-two secret package rebuilt field by field gives other outputs than from the in-memory one");
+    }
+    // dealer share and key package
+    {
+        let keys = dealer_keys::<C>(shape, case.ids, KeySource::Dealer, case.seed ^ 0xf1e1e, "C13")?;
+        let id = keys.ids[(case.who as usize) % 3];
+        let sh = &keys.secret_shares.as_ref().unwrap()[&id];
+        let r = SecretShare::<C>::new(re_id(sh.identifier())?, SigningShare::<C>::deserialize(&sh.signing_share().serialize()).map_err(|e| bad("a signing share", format!("{e:?}")))?, re_comm(sh.commitment())?);
+        ensure!(ctx, r == *sh && r.serialize().ok() == sh.serialize().ok(), "C13/restored-state-differs", "secret share rebuilt field by field differs from the original");
+        let kp = &keys.kps[&id];
+        let vs = VerifyingShare::<C>::deserialize(&kp.verifying_share().serialize().map_err(|e| bad("verifying share", format!("{e:?}")))?).map_err(|e| bad("a verifying share", format!("{e:?}")))?;
+        let vkey = frost::VerifyingKey::<C>::deserialize(&kp.verifying_key().serialize().map_err(|e| bad("verifying key", format!("{e:?}")))?).map_err(|e| bad("a verifying key", format!("{e:?}")))?;
+        let r = KeyPackage::<C>::new(re_id(kp.identifier())?, SigningShare::<C>::deserialize(&kp.signing_share().serialize()).map_err(|e| bad("a signing share", format!("{e:?}")))?, vs, vkey, *kp.min_signers());
+        ensure!(ctx, r == *kp && r.serialize().ok() == kp.serialize().ok(), "C13/restored-state-differs", "key package rebuilt field by field differs from the original");
+    }
     Ok(())
 }
